@@ -357,6 +357,67 @@ def view_requests(form: int, a: int, n: int, m: int) -> bool:
     return _same(got, exp) and _once(log)
 
 
+def view_evaluates_only_what_is_requested(form: int, n: int) -> bool:
+    """
+    pre: 0 <= form <= 3 and 0 <= n <= 3
+    post: _
+    """
+    # S[1, n] is defined through element (0, n) of a slice / list view of S itself.  On the dense table this is not self-referential,
+    # so it must not be reported as an infinite recursion, and reading one element of a view must not evaluate its siblings.
+    form, n = _c(form, 0, 3), _c(n, 0, 3)
+    log = []
+
+    def ev(i, k):
+        log.append((int(i), int(k)))
+        if i == 1:
+            view = [s[:], s[0:2], s[[0, 1]], s[[1, 0]][::-1]][form]
+            return 10 * view[0, k]
+        return k + 1
+
+    s = BlockSeries(eval=ev, shape=(2,), n_infinite=1)
+    try:
+        r = s[1, n]
+    except RuntimeError:
+        return False
+    return r == 10 * (n + 1) and sorted(log) == [(0, n), (1, n)]
+
+
+def view_index_is_fixed_at_creation(a: int, b: int, n: int) -> bool:
+    """
+    pre: 0 <= a <= 2 and 0 <= b <= 2 and 0 <= n <= 2
+    post: _
+    """
+    # numpy evaluates an index expression when it is applied: changing the caller's list afterwards does not change the view
+    a, b, n = _c(a, 0, 2), _c(b, 0, 2), _c(n, 0, 2)
+    log = []
+    s = _mk((3, 2), 1, log)
+    rows = [a, b]
+    full = _dense((3, 2), 1)[rows, :]
+    view = s[rows, :]
+    first = view[0, 1, n]
+    rows[0] = rows[1] = (a + 1) % 3
+    got = view[:, :, n + 1]  # another order: nothing about it is cached yet
+    return _same(first, full[0, 1, n]) and _same(got, full[:, :, n + 1]) and _once(log)
+
+
+def numpy_integer_indices(form: int, a: int, b: int) -> bool:
+    """
+    pre: 0 <= form <= 4 and -2 <= a <= 2 and -2 <= b <= 3
+    post: _
+    """
+    # numpy integers (what the library itself hands to every eval) are integers for every rule: negative orders raise IndexError
+    form, a, b = _c(form, 0, 4), _c(a, -2, 2), _c(b, -2, 3)
+    A, B = np.int64(a), np.int64(b)
+    items = [
+        (0, 1, slice(A, b)),
+        (0, 1, slice(a, B)),
+        (1, 0, slice(A, B, np.int64(1))),
+        (np.int64(a % 2), np.int64(-1), B),
+        ([np.int64(a % 2)], 0, [B, np.int64(0)]),
+    ]
+    return _check((2, 2), 1, items[form])
+
+
 def empty_list_request(where: int, i: int, n: int) -> bool:
     """
     pre: 0 <= where <= 2 and -2 <= i <= 1 and 0 <= n <= 2
